@@ -42,6 +42,9 @@ for name in names:
     if not os.path.exists(os.path.join(md, "patch.diff")):
         continue
     meta = json.load(open(os.path.join(md, "meta.json")))
+    if meta.get("status") == "neutralised":
+        print(f"{name}: SKIPPED (no longer breaks the property on the current tree: {meta.get('neutralised_by', '')[:90]}...)")
+        continue
     scratch = tempfile.mkdtemp(prefix="formulaic-mut-", dir=os.environ.get("TMPDIR", "/tmp"))
     os.rmdir(scratch)
     try:
